@@ -21,6 +21,16 @@ def real_frames(n):
         if k: rec(k-1)
     rec(n-1); return out
 FR = real_frames(6)
+class _Base:
+    def meth(self): return sys._getframe(0)
+    @classmethod
+    def cmeth(cls): return sys._getframe(0)
+class _SubA(_Base): pass
+class _SubB(_Base): pass
+FR += [_SubA().meth(), _SubB().meth(), _Base().meth(), _SubA.cmeth(), _SubB.cmeth()]
+def frame_label(f):
+    """how a frame is identified in the text: Class.function when the class is known, else the function name"""
+    return f"{f.clsname}.{f.funcname}" if f.clsname is not None else f.funcname
 class Obj:
     def __init__(s,t): s.t=t
     def __repr__(s): return f"<Obj {s.t}>"
@@ -170,7 +180,7 @@ def shape_frame(f,o):
             sc=shape_ctx(c,o)
             if sc is not None: kids.append(sc)
     has_code = not (f.contexts and f.contexts[-1].is_exiting) and bool(f.linetext)
-    return ('frame', tuple(kids), has_code)
+    return ('frame', tuple(kids), has_code, frame_label(f))
 def shape_ctx(c,o):
     if c.hide and not o['show_hidden_frames']: return None
     inner = tuple(shape_stack_body(c.inner_stack,o)) if c.inner_stack is not None else ()
@@ -219,7 +229,7 @@ def parse_frame(blk):
                 cl.append(blk[i][2:]); i+=1
             kids.append(parse_ctx(cl))
         else: raise ValueError(("frame?", l))
-    return ('frame', tuple(kids), has_code)
+    return ('frame', tuple(kids), has_code, blk[0].split(' in ', 1)[0])
 def parse_ctx(cl):
     # cl[0] own line; then inner-stack body lines until first child indicator; then children
     i=1; inner=[]
@@ -349,6 +359,14 @@ for t in range(N):
                 ok = False; got = repr(e); exp = None
             if not ok:
                 leg.violation(key, f"decoded shape differs from the Stack's structure: {str(got)[:200]} vs {str(exp)[:200]}")
+            # the text names the root, and the error block at the end is the recorded error as the traceback module renders it
+            # (every chunk, every banner-less line, chained causes included)
+            if lines[0] != exp_header(s):
+                leg.violation(key, f"first line {lines[0]!r} is not the header of this Stack ({exp_header(s)!r})")
+            if s.error is not None:
+                ee = exp_error_lines(s.error)
+                if lines[-len(ee):] != ee:
+                    leg.violation(key, f"the error block at the end of format() is not the recorded error's rendering: {lines[-len(ee):][-3:]!r} vs {ee[-3:]!r}")
         else:
             cl = a
             summ = s.as_stdlib_summary(show_contexts=sc, show_hidden_frames=sh, capture_locals=cl)
